@@ -324,6 +324,11 @@ DoneChoosingBodySource:
 	if reinstateSlash {
 		urlPath += "/"
 	}
+	// The literal parts of urlPath were decoded when the base path and the path pattern were parsed.
+	// Encode them again, otherwise the URL parser below sees a path that is not a valid encoding,
+	// discards it and re-encodes the decoded path: escaped values would lose their escaping
+	// (an escaped "/" in a value would become a path separator) and a literal "?" or "#" would cut the path.
+	urlPath = escapeInvalidPathBytes(urlPath)
 
 	req, err := http.NewRequestWithContext(context.Background(), r.method, urlPath, body)
 	if err != nil {
@@ -347,6 +352,40 @@ DoneChoosingBodySource:
 	req.Header = r.header
 
 	return req, nil
+}
+
+// escapeInvalidPathBytes percent-encodes every byte that may not appear in an encoded URL path.
+// The percent sign itself is left alone, so that already escaped parameter values are kept as they are.
+func escapeInvalidPathBytes(p string) string {
+	const upperhex = "0123456789ABCDEF"
+	valid := func(c byte) bool {
+		if 'a' <= c && c <= 'z' || 'A' <= c && c <= 'Z' || '0' <= c && c <= '9' {
+			return true
+		}
+		return strings.IndexByte("-_.~!$&'()*+,;=:@[]%/", c) >= 0
+	}
+	n := 0
+	for i := 0; i < len(p); i++ {
+		if !valid(p[i]) {
+			n++
+		}
+	}
+	if n == 0 {
+		return p
+	}
+	var sb strings.Builder
+	sb.Grow(len(p) + 2*n)
+	for i := 0; i < len(p); i++ {
+		c := p[i]
+		if valid(c) {
+			sb.WriteByte(c)
+			continue
+		}
+		sb.WriteByte('%')
+		sb.WriteByte(upperhex[c>>4])
+		sb.WriteByte(upperhex[c&15])
+	}
+	return sb.String()
 }
 
 func mangleContentType(mediaType, boundary string) string {
